@@ -193,7 +193,7 @@ func (o *Origins) onlyStore(a *ssa.Alloc) ssa.Value {
 				}
 			case *ssa.MakeClosure:
 				// captured by a closure: harmless if no closure ever stores to the captured variable
-				if closureStores(r, a) {
+				if ClosureStores(r, a) {
 					escaped = true
 				}
 			default:
@@ -405,7 +405,7 @@ func (o *Origins) baseOf(v ssa.Value) *Term {
 
 // closureStores reports whether the closure created by mc (or a closure nested in it) stores to the
 // variable it captures as cell (or lets it escape further than loads / field loads).
-func closureStores(mc *ssa.MakeClosure, cell ssa.Value) bool {
+func ClosureStores(mc *ssa.MakeClosure, cell ssa.Value) bool {
 	fn := mc.Fn.(*ssa.Function)
 	for i, b := range mc.Bindings {
 		if b != cell || i >= len(fn.FreeVars) {
@@ -429,7 +429,7 @@ func closureStores(mc *ssa.MakeClosure, cell ssa.Value) bool {
 					}
 				}
 			case *ssa.MakeClosure:
-				if closureStores(x, fv) {
+				if ClosureStores(x, fv) {
 					return true
 				}
 			default:
